@@ -16,6 +16,7 @@ import (
 	"go.mongodb.org/mongo-driver/mongo"
 	"go.mongodb.org/mongo-driver/mongo/options"
 
+	"github.com/256dpi/lungo"
 	"github.com/256dpi/lungo/bsonkit"
 	"github.com/256dpi/lungo/mongokit"
 
@@ -491,6 +492,37 @@ func c20Cases(quick bool) []c20Case {
 				_ = cur.All(w.Ctx, &specs)
 			}
 			_, _ = w.C("d", "c").Indexes().ListSpecifications(w.Ctx)
+		})
+	}
+	// GridFS with every chunk size of the extremes, on the bucket and on the upload
+	for _, cs := range []int32{0, -1, 1, 2, math.MinInt32, math.MaxInt32} {
+		cs := cs
+		add("driver-gridfs-chunk-size", true, func() string {
+			return fmt.Sprintf("GridFS bucket / upload with chunk size %d: UploadFromStream, OpenUploadStream + Write + Close, DownloadToStream, tracked mode", cs)
+		}, func(w *world.World) {
+			if cs > 1<<20 {
+				return // (a chunk buffer of 2 GiB is a matter of memory, not of robustness)
+			}
+			db := w.Client.Database("gfs")
+			_ = db.Drop(w.Ctx)
+			for _, tracked := range []bool{false, true} {
+				b1 := lungo.NewBucket(db, options.GridFSBucket().SetChunkSizeBytes(cs))
+				b2 := lungo.NewBucket(db)
+				if tracked {
+					b1.EnableTracking()
+					b2.EnableTracking()
+				}
+				_, _ = b1.UploadFromStream(w.Ctx, "f1", bytes.NewReader([]byte("hello world")))
+				_ = b2.UploadFromStreamWithID(w.Ctx, "id2", "f2", bytes.NewReader([]byte("hello world")), options.GridFSUpload().SetChunkSizeBytes(cs))
+				if st, err := b2.OpenUploadStreamWithID(w.Ctx, "id3", "f3", options.GridFSUpload().SetChunkSizeBytes(cs)); err == nil {
+					_, _ = st.Write([]byte("abc"))
+					_, _ = st.Write(nil)
+					_ = st.Close()
+				}
+				var buf bytes.Buffer
+				_, _ = b2.DownloadToStream(w.Ctx, "id2", &buf)
+				_, _ = b2.DownloadToStreamByName(w.Ctx, "f1", &buf)
+			}
 		})
 	}
 	// find-one-and-modify calls in every combination of their options, with updates that change the document, leave it
